@@ -1,7 +1,10 @@
 package main
 
 import (
+	"errors"
 	"fmt"
+	"net/http"
+	"net/http/httptest"
 	"sort"
 	"strconv"
 	"strings"
@@ -20,6 +23,8 @@ import (
 //	compile <path>           -> ok <first> <start> <spath> <regex> <names> | panic
 //	build <path> <k=v,...>   -> <path> <sorted query pairs>          (NewBuildRequestURL().Path(p).Build(M))
 //	cnew <cap> | cset <k> <id> | cget <k> | cdel <k> | chas <k> | clen | ckeys      (cachedRoutes)
+//	winit <n:e,...> | wh <code> | wr <bytes> | fl | wst                              (responseWriter, through a Context
+//	     initialised on a recording writer whose answers to Write are scripted: accepted bytes, error or not)
 type gencodeEngine struct{}
 
 func init() { register(gencodeEngine{}) }
@@ -80,6 +85,8 @@ func (gencodeEngine) Corpus() []Case {
 			"build "+p("/static")+" -", "build "+p("/u/{id}")+" "+gcPairs(map[string]string{"page": "2", "sort": "a b"})),
 		c("cnew 2", "cset "+p("GET/a")+" 1", "cset "+p("GET/b")+" 2", "cget "+p("GET/a"), "cset "+p("GET/c")+" 3", "ckeys", "clen", "chas "+p("GET/b"),
 			"cdel "+p("GET/a"), "cdel "+p("GET/a"), "cget "+p("GET/zz"), "cset "+p("GET/c")+" 9", "cget "+p("GET/c"), "ckeys"),
+		c("winit -", "wst", "wh 404", "wst", "wr "+p("ab"), "wst", "wh 500", "wr "+p(""), "fl", "wst"),
+		c("winit 1:0,5:1", "wr "+p("abc"), "wr "+p("de"), "wst", "winit -", "fl", "wst", "wh 0", "wh -1", "wr "+p("x"), "wst"),
 		c("cnew 0", "cset "+p("k")+" 1", "clen", "ckeys", "cget "+p("k"), "cnew 1", "cset "+p("k")+" 1", "cset "+p("k")+" 2", "cget "+p("k"), "clen"),
 	}
 }
@@ -95,7 +102,31 @@ func gcRandPath(r *Rand) string {
 
 func (gencodeEngine) Gen(r *Rand, tier string) Case {
 	var ops []string
-	switch r.Intn(5) {
+	switch r.Intn(6) {
+	case 5: // responseWriter
+		var sc []string
+		for i, n := 0, r.Intn(4); i < n; i++ {
+			sc = append(sc, strconv.Itoa(r.PickInt([]int{0, 1, 2, 5, 100}))+":"+strconv.Itoa(r.PickInt([]int{0, 0, 0, 1})))
+		}
+		scs := "-"
+		if len(sc) > 0 {
+			scs = strings.Join(sc, ",")
+		}
+		ops = append(ops, "winit "+scs)
+		for i, n := 0, r.Range(2, 10); i < n; i++ {
+			switch r.Intn(8) {
+			case 0, 1:
+				ops = append(ops, "wh "+strconv.Itoa(r.PickInt([]int{200, 201, 404, 500, 0, -1, 204, 302})))
+			case 2, 3, 4:
+				ops = append(ops, "wr "+hx(r.Pick([]string{"", "a", "hello", "xyz12"})))
+			case 5:
+				ops = append(ops, "fl")
+			default:
+				ops = append(ops, "wst")
+			}
+		}
+		ops = append(ops, "wst")
+		return Case{Ops: ops, Tag: "writer"}
 	case 0: // path helpers on raw byte strings (the alphabet of the path engine) and on patterns
 		for i, n := 0, r.Range(6, 20); i < n; i++ {
 			s := gcRandPath(r)
@@ -195,6 +226,32 @@ func (gencodeEngine) Gen(r *Rand, tier string) Case {
 	}
 }
 
+// gcRec is the http.ResponseWriter below rux: it records the calls it receives and answers Write from a script
+type gcRec struct {
+	hdr    http.Header
+	log    []string
+	script [][2]int
+}
+
+func (w *gcRec) Header() http.Header { return w.hdr }
+func (w *gcRec) WriteHeader(c int)   { w.log = append(w.log, "wh:"+strconv.Itoa(c)) }
+func (w *gcRec) Flush()              { w.log = append(w.log, "fl") }
+func (w *gcRec) Write(b []byte) (int, error) {
+	n, e := len(b), 0
+	if len(w.script) > 0 {
+		n, e = w.script[0][0], w.script[0][1]
+		w.script = w.script[1:]
+		if n > len(b) {
+			n = len(b)
+		}
+	}
+	w.log = append(w.log, "wr:"+hx(string(b))+":"+strconv.Itoa(n)+":"+strconv.Itoa(e))
+	if e == 1 {
+		return n, errors.New("write failed")
+	}
+	return n, nil
+}
+
 type gcCache interface {
 	Set(k string, v *rux.Route) bool
 	Get(k string) (*rux.Route, bool)
@@ -216,6 +273,9 @@ func (gencodeEngine) Run(ops []string) (ans []string, oracle []string) {
 		byID[id], ids[rt] = rt, id
 		return rt
 	}
+	rec := &gcRec{hdr: http.Header{}}
+	ctx := &rux.Context{}
+	ctx.Init(rec, httptest.NewRequest("GET", "/", nil))
 	for _, op := range ops {
 		f := strings.Fields(op)
 		a := func() (res string) {
@@ -266,6 +326,37 @@ func (gencodeEngine) Run(ops []string) (ans []string, oracle []string) {
 					q[k] = vs[0]
 				}
 				return hx(u.Path) + " " + gcPairs(q)
+			case f[0] == "winit" && len(f) == 2:
+				rec = &gcRec{hdr: http.Header{}}
+				if f[1] != "-" {
+					for _, x := range strings.Split(f[1], ",") {
+						p := strings.Split(x, ":")
+						rec.script = append(rec.script, [2]int{atoi(p[0]), atoi(p[1])})
+					}
+				}
+				ctx = &rux.Context{}
+				ctx.Init(rec, httptest.NewRequest("GET", "/", nil))
+				return "ok"
+			case f[0] == "wh" && len(f) == 2:
+				ctx.Resp.WriteHeader(atoi(f[1]))
+				return "ok"
+			case f[0] == "wr" && len(f) == 2:
+				n, err := ctx.Resp.Write([]byte(arg(1)))
+				e := "0"
+				if err != nil {
+					e = "1"
+				}
+				return strconv.Itoa(n) + " " + e
+			case f[0] == "fl" && len(f) == 1:
+				ctx.Resp.(http.Flusher).Flush()
+				return "ok"
+			case f[0] == "wst" && len(f) == 1:
+				l := "-"
+				if len(rec.log) > 0 {
+					l = strings.Join(rec.log, ",")
+				}
+				return strconv.Itoa(ctx.StatusCode()) + " " + strconv.Itoa(ctx.Length()) + " " +
+					gcTF(ctx.Resp.(interface{ Written() bool }).Written()) + " " + l
 			case f[0] == "cnew" && len(f) == 2:
 				cache = rux.NewCachedRoutes(atoi(f[1]))
 				return "ok"
